@@ -26,6 +26,10 @@ OPS = [  # (name, weight)
 ]
 
 
+# operations whose generated arguments may legitimately be rejected (label clashes, charge restrictions)
+UNSURE = {'split_legs', 'combine_legs', 'spec_misc', 'iset_leg_labels', 'concatenate', 'spec_getitem'}
+
+
 class ProgGen:
     def __init__(self, ex, quick=True):
         self.ex = ex
@@ -64,7 +68,8 @@ class ProgGen:
 
     @staticmethod
     def flip(l):
-        return l[:-1] if l.endswith('*') else l + '*'
+        from harness.c01_worker import doc_conj_label
+        return doc_conj_label(l)
 
     # ------------------------------------------------------------------ program
     def gen_case(self, rng, max_steps):
@@ -97,12 +102,14 @@ class ProgGen:
                 if m is not None:
                     st, malformed = m, True
             st['malformed'] = malformed
+            # calls the generator knows to be valid by construction: an error there is reported, never dropped
+            st['sure'] = (not malformed) and (name not in UNSURE or bool(st.pop('_sure', False)))
             # type the step by executing it
             try:
                 res, _ = self.ex.run(vals, st)
             except Exception:
                 res = None
-                if not malformed and rng.random() < 0.5:
+                if not malformed and not st['sure'] and rng.random() < 0.5:
                     continue     # an unintended invalid call: usually dropped (keeps the valid fraction high)
             if isinstance(res, self.npc.Array):
                 try:
@@ -357,7 +364,7 @@ class ProgGen:
         i = self.pick(arrs, vals)
         a = vals[i]
         k = self.rng.randrange(a.rank)
-        nq = None if self.rng.random() < 0.3 else npcgen.gen_charge(self.rng, self.mods, window=(-3, 6))
+        nq = None if self.rng.random() < 0.3 else npcgen.gen_charge(self.rng, [int(m) for m in a.chinfo.mod], window=(-3, 6))
         return dict(op='gauge_total_charge', **{'in': [i]}, axis=self.axis_arg(a, k), newqtotal=nq,
                     new_qconj=self.rng.choice([None, None, 1, -1]))
 
@@ -455,8 +462,10 @@ class ProgGen:
 
     def g_outer(self, vals, arrs):
         i = self.pick(arrs, vals, lambda v: v.rank <= 3)
-        j = self.pick(arrs, vals, lambda v: v.rank <= 3)
-        if i is None or j is None:
+        if i is None:
+            return None
+        j = self.pick(arrs, vals, lambda v: v.rank <= 3 and v.chinfo == vals[i].chinfo)
+        if j is None:
             return None
         if np.prod(vals[i].shape) * np.prod(vals[j].shape) > MAX_SIZE:
             return None
@@ -657,18 +666,19 @@ class ProgGen:
         if i is None:
             return None
         a = vals[i]
-        base = dict(op='spec', what=what, **{'in': [i]})
+        mods = [int(m) for m in a.chinfo.mod]
+        base = dict(op='spec', what=what, **{'in': [i]}, _sure=what not in ('grid_outer',))
         if what == 'ipurge_zeros':
             return dict(base, kind='same')
         if what == 'astype':
             tgt = 'complex128' if str(a.dtype).startswith('complex') else rng.choice(['float64', 'complex128'])
             return dict(base, kind='same', dtype=tgt)
         if what == 'drop_charge':
-            if not self.mods:
+            if not mods:
                 return None
-            return dict(base, kind='same', charge=None if rng.random() < 0.4 else rng.randrange(len(self.mods)))
+            return dict(base, kind='same', charge=None if rng.random() < 0.4 else rng.randrange(len(mods)))
         if what == 'change_charge':
-            u1 = [k for k, m in enumerate(self.mods) if m == 1]
+            u1 = [k for k, m in enumerate(mods) if m == 1]
             if not u1:
                 return None
             return dict(base, kind='same', charge=rng.choice(u1), new_qmod=rng.choice([2, 3]))
@@ -680,6 +690,8 @@ class ProgGen:
             return dict(base, kind='pad', axis=k, axis_arg=self.axis_arg(a, k), n=n, extra=n)
         if what == 'add_leg':
             if a.rank > 5:
+                return None
+            if mods != self.mods:
                 return None
             leg = dict(rng.choice(self.pool))
             n = npcgen.leg_len(leg)
@@ -699,8 +711,8 @@ class ProgGen:
             ids = [i] + ([rng.choice([j for j in sib if j != i])] if 1 in grid else [])
             if n * int(np.prod(a.shape)) > MAX_SIZE:
                 return None
-            ch = [[0] * len(self.mods) for _ in range(n)]
-            leg = dict(mods=list(self.mods), slices=list(range(n + 1)), charges=ch, qconj=rng.choice([1, -1]),
+            ch = [[0] * len(mods) for _ in range(n)]
+            leg = dict(mods=list(mods), slices=list(range(n + 1)), charges=ch, qconj=rng.choice([1, -1]),
                        ctor='qind')
             return dict(base, kind='grid_outer', **{'in': ids}, gshape=[n], grid=grid, grid_legs=[leg],
                         grid_labels=[rng.choice([None, 'g'])] if rng.random() < 0.5 else None)
@@ -768,8 +780,11 @@ class ProgGen:
             if op in ('tensordot', 'inner') and isinstance(st.get('axes'), list) and st['axes'][0]:
                 b = vals[ins[1]]
                 other = [k for k in range(b.rank)]
-                choices += [('axes', [st['axes'][0], [rng.choice(other)] + st['axes'][1][1:]]),
-                            ('axes', [st['axes'][0][:-1], st['axes'][1]]),
+                if op == 'tensordot':
+                    choices += [('axes', [st['axes'][0], [rng.choice(other)] + st['axes'][1][1:]])]
+                elif len(st['axes'][1]) >= 2:   # wrong pairing, still a permutation (ties in argsort are unspecified)
+                    choices += [('axes', [st['axes'][0], [st['axes'][1][1], st['axes'][1][0]] + st['axes'][1][2:]])]
+                choices += [('axes', [st['axes'][0][:-1], st['axes'][1]]),
                             ('axes', [[bad_ax] + st['axes'][0][1:], st['axes'][1]])]
             if op in ('iadd_prefactor_other', 'binary_blockwise', 'concatenate', 'outer', 'inner', 'tensordot'):
                 # wrong partner: any other live tensor
